@@ -34,7 +34,7 @@ def gen_cases(tier, seed):
         cases.append({"kind": "exhaustive", "maxlen": 5, "count": 0, "bseed": 0})
     return cases
 
-DICT_SIZES = [0, 0, 1, 7, 8, 100, 4000, 65535, 65536, 70000]
+DICT_SIZES = [0, 0, 1, 7, 8, 100, 4000, 65534, 65535, 65536, 70000]
 ALPHA = [0x00, 0x01, 0x0F, 0x10, 0xF0, 0xFF]
 
 def worker_init(ctx):
